@@ -613,10 +613,9 @@ func laws20(c case20) (vs []verdict20, info map[string]string) {
 	y, cls, msg := format20(c.Yaml, c.UseSchema)
 	info["outcome"] = cls
 	if cls == ClsPanic {
-		class := "panic/other"
-		if strings.Contains(msg, "index out of range") && f.nestedSeqKeyed {
-			class = "panic/seq-less-odd-content"
-		}
+		// no panic of the formatter is a listed finding any more (the index-out-of-range in
+		// sortedSeqContents.Less was repaired by /repo d64b8e2): every panic is a violation
+		class := "panic/format-input"
 		return []verdict20{{"no_panic", class, "FormatInput panicked: " + msg}}, info
 	}
 	if cls != ClsOk {
